@@ -84,6 +84,27 @@ check("C04", "exploration",
       "that has a finally clause are not generated.",
       "bounded exhaustive enumeration of programs x all branch-decision vectors, path-in-graph oracle", "DESIGN.md §2 C04")
 
+check("C08", "exploration",
+      "(a) Every loop-free value program with <=3 (thorough 4) statement nodes over integer constants, copies, binary operations, "
+      "fields f/g of two objects, aliasing, helpers called from several sites and opaque if / if-else (2041 programs quick), each an "
+      "entry point of the real semantic pipeline: every concrete value of every definition of x / y on every execution path "
+      "(reference GIR interpreter, all decision vectors) must be matched by an equal state value or an unknown state. (b) complete "
+      "product of a hostile literal alphabet (quotes, backslash, operator / conditional / format fragments, 9**9**9, "
+      "__import__(...), long run) x 7 contexts (concatenation left/right/twice, comparison, repetition, passed through a call, stored "
+      "in a field): the result must be the literal's text as data, an unrelated definition must keep its baseline value, the run must "
+      "end normally and the work counter stay within x2 of the baseline.",
+      "Primitive integer values of entry-level variables only; objects are covered through field reads. Escape sequences kept "
+      "undecoded in a state value still count as data.",
+      "bounded exhaustive program enumeration, concrete collecting semantics (reference interpreter) vs abstract state sets", "DESIGN.md §2 C08")
+
+check("C09", "exploration",
+      "The same loop-free value programs as C08(a) judged for exactness: with opaque conditions every CFG path is feasible, so the "
+      "exact answer at a definition is the set of values it takes over all decision vectors; required: observed primitive value set "
+      "== exact set and no unknown state - no retained overwritten value, no cross-field / cross-object bleed, no cross-call-site "
+      "bleed, binary operations on constants = set of operand combinations. 7976 definitions quick.",
+      "Loop-free, single allocation per variable, integer constants only (where the statement demands exactness).",
+      "bounded exhaustive program enumeration, exact collecting semantics vs abstract state sets", "DESIGN.md §2 C09")
+
 check("C10", "exploration",
       "Exhaustive product of taint programs: chains of <=2 links from a 14-link (thorough 17) alphabet - copy, operator, parameter "
       "pass/return, field, element, display, dict, global container, object method, branch merge, loop-carried once, and the broken "
